@@ -3,7 +3,7 @@ import ast
 import re
 
 from sa.program import src, own_nodes, call_name, parent, kwarg, AnchorMissing
-from sa import guards, exprmodel
+from sa import guards, exprmodel, resolve
 
 EXPLANATION = (
     "Static rules over the code generator, its emitted code (string templates and the shipped generated sources lowered from "
@@ -601,7 +601,75 @@ def r01_9(ctx):
     c06.hash_combiners(ctx, 'R01.9')
 
 
+def r01_12(ctx):
+    """Numeric literals of the form reach the generated kernel with full precision: the emitter formats them with repr (or an
+    explicit round-trip format: %r, !r, .17g, float.hex); '%g', '%f', '%e', str.format('{:g}') keep six significant digits."""
+    f = ctx.prog.func(CG + '.CodegenVisitor.gencode_const')
+    rets = [r for r in guards.returns_of(f.node) if r.value is not None]
+    if not rets:
+        ctx.undecided('R01.12', f.qual, 'emitted text of a constant', f.node, 'no return value')
+        return
+    for r in rets:
+        v = resolve.expand(r.value, r)
+        t = src(v).replace(' ', '')
+        exact = (isinstance(v, ast.Call) and call_name(v) == 'repr') or '%r' in t or '!r' in t or '.17g' in t or '.17e' in t or '.hex(' in t
+        lossy = None
+        for x in ast.walk(v):
+            if isinstance(x, ast.Constant) and isinstance(x.value, str):
+                import re as _re
+                for m in _re.finditer(r'%(\.\d+)?[gfe]|\{[^}]*:(\.\d+)?[gfe]\}', x.value):
+                    prec = m.group(1) or m.group(2)
+                    if prec is None or int(prec[1:]) < 17:
+                        lossy = m.group(0)
+            if isinstance(x, ast.JoinedStr):
+                for fv in x.values:
+                    if isinstance(fv, ast.FormattedValue) and fv.format_spec is not None:
+                        spec = src(fv.format_spec).strip("f'\"")
+                        import re as _re
+                        m = _re.search(r'(\.\d+)?[gfe]$', spec)
+                        if m and (m.group(1) is None or int(m.group(1)[1:]) < 17):
+                            lossy = spec
+        if isinstance(v, ast.Call) and call_name(v) == 'str':
+            exact = True        # str(float) is the shortest round-trip text in Python 3
+        ctx.decide('R01.12', f.qual, src(r)[:80], True if (exact and not lossy) else (False if lossy else None), r,
+                   'round-trip text of the literal' if exact and not lossy else
+                   'the literal is emitted through the format `%s`, which keeps six (or too few) significant digits: (1/3)*u*v*dx is compiled '
+                   'with 0.333333, sin(pi*x) with 3.14159 -- the kernel integrates a different integrand (relative error 1e-7 .. 1e-6)' % lossy,
+                   definite=True)
+
+
+def r01_13(ctx):
+    """A boundary assembly derives Jac_to_boundary from ITS OWN boundary argument on every call: the entry is stored
+    unconditionally (not setdefault / `if key not in args`), so an argument dictionary reused for another side is refreshed."""
+    f = ctx.prog.func('pyiga.assemble.instantiate_assembler')
+    sites = []
+    for n in ast.walk(f.node):
+        if isinstance(n, ast.Constant) and n.value == 'Jac_to_boundary':
+            sites.append(n)
+    if not sites:
+        ctx.undecided('R01.13', f.qual, "store of 'Jac_to_boundary'", f.node, 'not recognised')
+        return
+    for n in sites:
+        st = resolve.stmt_of(n)
+        p = parent(n)
+        if isinstance(p, ast.Subscript) and isinstance(p.ctx, ast.Store) and isinstance(st, ast.Assign):
+            facts = guards.path_conditions(st)
+            cond = [t for (t, pol, _n) in facts if 'Jac_to_boundary' in t]
+            ctx.decide('R01.13', f.qual, src(st)[:90], False if cond else True, st,
+                       'recomputed from the boundary of this call' if not cond else
+                       'the entry is only stored when it is absent (%s): a dictionary that already went through a boundary assembly keeps the '
+                       'matrix of the EARLIER side, ds and n are computed for the wrong face (errors of order 1)' % cond[0], definite=True)
+        elif isinstance(p, ast.Call) and isinstance(p.func, ast.Attribute) and p.func.attr == 'setdefault':
+            ctx.violated('R01.13', f.qual, src(st)[:90], st,
+                         'setdefault keeps an entry that is already present: an argument dictionary reused for a second boundary assembly on another '
+                         'side keeps the Jac_to_boundary matrix of the first side -- ds and n are computed for the wrong face (errors of order 1)')
+        elif isinstance(p, ast.Call) and isinstance(p.func, ast.Attribute) and p.func.attr == 'update':
+            ctx.met('R01.13', f.qual, src(st)[:90], st, 'stored unconditionally')
+
+
 def run(ctx):
+    r01_12(ctx)
+    r01_13(ctx)
     # R01.11 = R08.4: after update() / update_params() the kernel integrates the NEW data: every stored array of an updatable input
     # is refreshed, nothing derived from it stays precomputed
     import rules.C08 as c08
